@@ -65,6 +65,8 @@ class TLCResult:
                 s = m.group(1)
                 s = s.replace('\\"', '"').replace("\\\\", "\\")
                 res.append(json.loads(s))
+        # TLC's workers print in a nondeterministic order: a canonical order makes every seeded sample of the records reproducible
+        res.sort(key=lambda r: json.dumps(r, sort_keys=True))
         return res
 
     def coverage_zero(self):
